@@ -306,6 +306,7 @@ let rec handle (line : string) : string =
   | "S" :: _ -> run_session line
   | "V" :: _ -> if M.c_valid (msgs_of_sx (sx_of_string (rest_after line 1))) then "OK" else "ERR"
   (* ---------------- C12 / C13 JSON ---------------- *)
+  | "CLI12" :: _ -> "SKIP"   (* rejected request texts through the real binary: decided by the harness predicate (C15_nothing_sent) *)
   | "JIN" :: _ :: _ ->
     let ast = rest_after line 2 in
     let ast = (match split_on_string_keep " => " ast with a :: _ -> a | [] -> ast) in
@@ -321,7 +322,7 @@ let rec handle (line : string) : string =
         | [] -> "?"
         | x :: r -> if List.for_all (fun y -> y = x) r then (if x = "ERR" then "ALLERR" else "SAME " ^ String.sub x 3 (String.length x - 3)) else "DIFF")
      | _ -> "?")
-  | "JOUT" :: fmt :: _ | "JOUTC" :: fmt :: _ ->
+  | "JOUT" :: fmt :: _ | "JOUTC" :: fmt :: _ | "JOUTB" :: fmt :: _ | "JOUTBS" :: fmt :: _ ->
     (match split_on_string_keep " | " line with
      | [hd; table] ->
        let ms = msgs_of_sx (sx_of_string (rest_after hd 2)) in
